@@ -24,6 +24,7 @@ import (
 
 	"github.com/tetratelabs/wazero"
 	"github.com/tetratelabs/wazero/api"
+	"github.com/tetratelabs/wazero/experimental"
 	"github.com/tetratelabs/wazero/verifharness/hx"
 )
 
@@ -39,7 +40,7 @@ func probeF2() bool {
 	d := &Desc{Name: "probe", Imports: []Imp{{Mod: "A", Name: "g", Kind: 'g', VT: tI32, Mut: true}},
 		Globals: []LGlobal{{VT: tI32, Init: CE{K: 'g', V: 0}}}}
 	ctx := context.Background()
-	rt := wazero.NewRuntimeWithConfig(ctx, wazero.NewRuntimeConfigInterpreter().WithCoreFeatures(api.CoreFeaturesV2))
+	rt := wazero.NewRuntimeWithConfig(ctx, wazero.NewRuntimeConfigInterpreter().WithCoreFeatures(api.CoreFeaturesV2|experimental.CoreFeaturesThreads))
 	defer rt.Close(ctx)
 	_, err := rt.CompileModule(ctx, d.Encode())
 	return err == nil
